@@ -101,3 +101,127 @@ func TestVerifC34LighthouseCache(t *testing.T) {
 	r.Distinct(fmt.Sprintf("ops %d", ops.Load()))
 	c34LockOrder(r)
 }
+
+// C34 (hostmap) — component-level stress of one node's real HostMap under the race detector and the lock-order monitor:
+// peers that hold several tunnels (as after re-handshakes) whose primary has no established relay, relay lookups the way the
+// relayed send path and the forwarding path do them, while tunnels are added, promoted, given relays and deleted.
+func TestVerifC34HostMap(t *testing.T) {
+	r := verifkit.NewReporter(t, "C34", "hmstress",
+		"one wired node's HostMap; W writer goroutines add tunnels for a small pool of peers, attach established relays to random tunnels, promote and delete tunnels while R reader goroutines call QueryVpnAddrsRelayFor / QueryVpnAddr / QueryIndex / QueryRelayIndex / the control API listing; distinct = (operation) classes")
+	defer r.Done()
+	if i, _ := verifkit.Shard(); i != 0 {
+		return
+	}
+	ca := vnNewCA(cert.Version2, cert.Curve_CURVE25519)
+	nw := vnNewNet(t)
+	n := nw.AddNode(ca.issue([]cert.Version{cert.Version2}, "n", "10.34.0.1/16", "", nil), []*vnCA{ca}, "192.0.2.1:4242", nil)
+	defer n.C.Stop()
+	hm := n.F.hostMap
+	l := vnLogger()
+	var peers []netip.Addr
+	certOf := map[netip.Addr]*cert.CachedCertificate{}
+	for i := 0; i < 5; i++ {
+		a := netip.AddrFrom4([4]byte{10, 34, 3, byte(2 + i)})
+		peers = append(peers, a)
+		id := ca.issue([]cert.Version{cert.Version2}, fmt.Sprintf("hm-peer-%d", i), a.String()+"/16", "", nil)
+		certOf[a] = &cert.CachedCertificate{Certificate: id.Certs[cert.Version2]}
+	}
+	var idx atomic.Uint32
+	idx.Store(0x34000000)
+	var mu sync.Mutex
+	live := map[netip.Addr][]*HostInfo{}
+	add := func(p netip.Addr) {
+		i := idx.Add(1)
+		h := &HostInfo{
+			ConnectionState: &ConnectionState{peerCert: certOf[p]},
+			localIndexId:    i, remoteIndexId: i + 0x100000,
+			vpnAddrs:        []netip.Addr{p},
+			HandshakePacket: map[uint8][]byte{0: {byte(i)}},
+			relayState:      RelayState{relayForByAddr: map[netip.Addr]*Relay{}, relayForByIdx: map[uint32]*Relay{}},
+		}
+		hm.Lock()
+		hm.unlockedAddHostInfo(h, n.F)
+		hm.Unlock()
+		mu.Lock()
+		live[p] = append(live[p], h)
+		mu.Unlock()
+	}
+	pick := func(rng interface{ IntN(int) int }, p netip.Addr, remove bool) *HostInfo {
+		mu.Lock()
+		defer mu.Unlock()
+		hs := live[p]
+		if len(hs) == 0 {
+			return nil
+		}
+		i := rng.IntN(len(hs))
+		h := hs[i]
+		if remove {
+			live[p] = append(hs[:i:i], hs[i+1:]...)
+		}
+		return h
+	}
+	for _, p := range peers {
+		add(p)
+	}
+	iters := verifkit.Scale(6000, 300000)
+	var wg sync.WaitGroup
+	var ops, relayFound atomic.Int64
+	for w := 0; w < 3; w++ {
+		wg.Add(1)
+		go func(w int) {
+			defer wg.Done()
+			rng := verifkit.SubRand("C34hmW", w)
+			for i := 0; i < iters; i++ {
+				p := peers[rng.IntN(len(peers))]
+				switch rng.IntN(8) {
+				case 0, 1:
+					add(p) // a re-handshake: the new tunnel becomes primary and has no relays yet
+				case 2, 3:
+					if h := pick(rng, p, false); h != nil {
+						AddRelay(l, h, hm, peers[rng.IntN(len(peers))], nil, ForwardingType, Established)
+					}
+				case 4:
+					if h := pick(rng, p, false); h != nil {
+						hm.MakePrimary(h)
+					}
+				default:
+					if h := pick(rng, p, true); h != nil {
+						hm.DeleteHostInfo(h)
+					}
+				}
+				ops.Add(1)
+			}
+		}(w)
+	}
+	for rd := 0; rd < 5; rd++ {
+		wg.Add(1)
+		go func(rd int) {
+			defer wg.Done()
+			rng := verifkit.SubRand("C34hmR", rd)
+			for i := 0; i < iters; i++ {
+				p, q := peers[rng.IntN(len(peers))], peers[rng.IntN(len(peers))]
+				switch rng.IntN(6) {
+				case 0, 1, 2:
+					if _, _, err := hm.QueryVpnAddrsRelayFor([]netip.Addr{q}, p); err == nil {
+						relayFound.Add(1)
+					}
+				case 3:
+					hm.QueryVpnAddr(p)
+				case 4:
+					hm.QueryIndex(0x34000000 + uint32(rng.IntN(int(idx.Load()-0x34000000)+1)))
+				default:
+					n.C.ListHostmapIndexes(false)
+				}
+				ops.Add(1)
+			}
+		}(rd)
+	}
+	wg.Wait()
+	r.Eval(int(ops.Load()))
+	r.Count("hostmap_operations", int(ops.Load()))
+	r.Count("relay_lookups_that_found_an_established_relay", int(relayFound.Load()))
+	r.DistinctClass("writers: add tunnel / add relay / promote / delete")
+	r.DistinctClass("readers: QueryVpnAddrsRelayFor / QueryVpnAddr / QueryIndex / ListHostmapIndexes")
+	r.Distinct(fmt.Sprintf("ops %d", ops.Load()))
+	c34LockOrder(r)
+}
